@@ -1,4 +1,79 @@
+COMPLETE = " Complete over the stated finite domain (no sampling): the metric choices are solver variables."
 claim("C01",
-      "Bounded symbolic model checking, complete over the finite domain: all 2 x 2,592 canonical v3 base vectors are decoded by the real Base.Decode and scored by the real Base.Score under symbolic metric choices; the solver proves that no choice makes the score differ from the exact-rational FIRST equations (v3.0 ceiling rule / v3.1 Appendix-A rule) or violates the zero-iff-no-impact rule.",
+      "Bounded symbolic model checking, complete over the finite domain: all 2 x 2,592 canonical v3 base vectors are decoded by the real Base.Decode and scored by the real Base.Score under symbolic metric choices; the solver proves that no choice makes the score differ from the exact-rational FIRST equations (v3.0 ceiling rule / v3.1 Appendix-A rule) or violates the zero-iff-no-impact rule. Thorough adds the roundUp kernel lemma over every float64 in [0,10] in pure FloatingPoint theory.",
       "Token order independence is delegated to C09; floats are ITE-lifted constants folded by the host FPU (DESIGN.md D-float).",
       "DESIGN.md 6/C01")
+claim("C02",
+      "Complete over 518,400 temporal vectors (plus every omission pattern of E/RL/RC): the real Temporal.Decode and Temporal.Score against Roundup(base x E x RL x RC) in exact rationals, stated on the library's own base score, which in turn is proved equal to the FIRST base score in the same harness (composition written in the harness).",
+      "Canonical token order (others by C09).",
+      "DESIGN.md 6/C02")
+claim("C03",
+      "Complete over the 1.1e12-vector product: 100 cubes over (E,RL,RC), in each cube version, the 8 base and the 11 environmental metrics are solver variables; real Environmental.Decode and Score against the exact-rational FIRST environmental equations (effective Modified metrics, 0.915 cap, per-version polynomial, double round-up). Thorough adds a second, independent cube split over (version,S,MS) and the E=RL=RC=X harness with two solvers.",
+      "z3 5.1 is the deciding solver (cvc5 does not answer these queries within 300 s; z3 4.8.12 confirms in the thorough tier).",
+      "DESIGN.md 6/C03")
+claim("C04",
+      "Complete over 729 base vectors x (100 temporal combinations + absent): real v2 Decode/Score against the exact FIRST v2 equations with set-valued rounding at exact halves. The pinned tree deviates on exactly 22 base vectors (finding F1: two-decimal rounding of the sub-scores): the check asserts 'specification or deviation model' (must hold), lets the solver enumerate every failing base vector and compares the set with known-findings.json (a 23rd vector is a VIOLATION).",
+      "Temporal step is stated on the library's own base score (composition).",
+      "DESIGN.md 6/C04, 7")
+claim("C05",
+      "Complete over 729 x 101 x 1,920 vectors: a chain of step lemmas on the library's own intermediate values (adjusted impact, adjusted base, adjusted temporal, outer equation), each against the exact FIRST equation with set-valued rounding; the outer equation additionally as a kernel lemma over every tenth-grid input; absent environmental group equals temporal score. Finding F1 (two-decimal rounding of AdjustedImpact / Exploitability) is handled by a deviation model: anything outside specification-or-deviation is a VIOLATION.",
+      "The chain mirrors the structure of Environmental.Score; a refactoring that breaks the mirror makes the check inconclusive, not failing.",
+      "DESIGN.md 6/C05, 7")
+claim("C06",
+      "Per level and version, complete domains: score = float64(k)/10 with 0<=k<=100, FormatFloat prints at most one decimal, Severity() is the band of the same level's score (v2 environmental: vectors with a negative specification equation exempt, as the property says); severity() kernels over every float64 bit pattern in FloatingPoint theory; report score fields (C17 harnesses).",
+      "v3 environmental level rides on the C03 cubes.",
+      "DESIGN.md 6/C06")
+claim("C07",
+      "Three layers on the real v3 decoders: (A) one decodeOne step from an arbitrary representation-invariant state on an arbitrary token string equals the reference step (true forall over strings and 64-bit field values); (B) whole Decode over a finite 115-token alphabet and 13 prefixes for every sequence of up to 3-4 tokens (6 in thorough) and (B') over two arbitrary '/'-free strings, against the reference fold; (E) every canonical vector with symbolic values and one classified edit (all transpositions, all single omissions, insertion of junk/duplicate/foreign tokens at every position, unknown value at every position, 13 prefixes).",
+      "Whole-vector claims for arbitrary long token sequences follow from A + B by the two-line induction in DESIGN.md 5; sequences longer than the bounds that are not a single-step defect are outside the claim.",
+      "DESIGN.md 5, 6/C07")
+claim("C08",
+      "Same three layers for the v2 decoders (no prefix, canonical order enforced by comparing with the re-encoding, all-or-nothing groups): step lemmas (A), whole Decode for every sequence of up to 3 alphabet tokens (4 thorough) and two arbitrary strings (B, B'), and every canonical vector of the four group patterns with one classified edit (E; environmental-level swap/omit/insert edits in the thorough tier).",
+      "As C07.",
+      "DESIGN.md 5, 6/C08")
+claim("C09",
+      "Fields after an accepted decode equal the written values: step lemmas (A) give field := code(value) and nothing else changes; edit harnesses prove it for every transposition of the canonical order and every omission (omitted = Not Defined, X = omitted), C13 harness proves X = omitted for scores; v2 group emptiness flags.",
+      "Arbitrary permutations follow from transpositions and the commutation of steps on different names (A).",
+      "DESIGN.md 6/C09")
+claim("C10",
+      "Encode/String of every accepted vector of the edit harnesses equals the canonical string built by the oracle (v3: specification order, X spelled out; v2: byte-identical to the input), the encoding is accepted again, fields and re-encoding are equal (scores too at base / temporal level).",
+      "Environmental-level score equality after round trip follows from field equality.",
+      "DESIGN.md 6/C10")
+claim("C11",
+      "Every error of layers A, B, B', E matches exactly one sentinel (the 11 sentinels are checked one by one through errors.Is on the symbolic match set) and the sentinel is allowed by the set of defects present in the input; on the single-defect inputs of the edit harnesses the class is exact.",
+      "errs.Wrap / errors.Is are modelled from the errs v1.3.2 source (match set = own identity + wrapped + cause).",
+      "DESIGN.md 6/C11")
+claim("C12",
+      "No panic obligation of any harness (nil dereference, index, nil map, division, explicit panic) is satisfiable: arbitrary strings at all six decoders, nil receivers, fresh objects, arbitrary representation-invariant states, decoded objects with one field reset; object-xor-error on every Decode; error/0-score on nil, fresh and reset objects. Finding F2 (nil-receiver panic of v2 IsEmpty) was found, replayed and fixed (d688e2f).",
+      "Unbounded string lengths are covered (SMT strings); token counts beyond the Layer-B bounds only through the step lemmas.",
+      "DESIGN.md 6/C12, 7")
+claim("C13",
+      "Relational assertions on complete domains: temporal with all Not Defined equals base (v2, v3), temporal <= base, v3 environmental with all eleven metrics X or omitted equals temporal unless v3.1 and scope changed, v2 environmental with TD:N is 0.",
+      "", "DESIGN.md 6/C13")
+claim("C14",
+      "Accessors return the embedded objects (pointer identity in the heap model, nil-safe); for every canonical environmental vector the scores, severities and encodings seen through higher-level objects equal those of independent lower-level decodes; the higher-level decodeOne acts on the embedded object exactly as the lower-level step (both equal the same reference step, Layer A).",
+      "", "DESIGN.md 6/C14")
+claim("C15",
+      "Frame conditions over the symbolic heap: every query, report construction and export leaves every pre-existing heap cell (object fields, names maps, package-level tables) unchanged for every input in the bounds; Decode writes only to objects it allocates; constructors share nothing; GetX results do not depend on the map iteration order (symbolic permutation, C20 harnesses). One arbitrary step from an arbitrary state covers histories of any length.",
+      "Determinism additionally relies on the engine's result terms mentioning only receiver state, arguments and init-time tables.",
+      "DESIGN.md 6/C15")
+claim("C16",
+      "Non-interference argument discharged with the solver (no schedule exploration): empty write sets on shared locations for every operation class and input within bounds (the C15 frame obligations), plus a static SSA scan for goroutines, sync primitives and stores to package-level variables outside initialisers; Bernstein's conditions then give race freedom and equality with sequential use.",
+      "Library internals (fmt, text/template, errs, x/text) trusted to be goroutine-safe; the Go memory model itself is trusted.",
+      "DESIGN.md 6/C16", category="other")
+claim("C17",
+      "For every canonical vector of each level (values symbolic) and every language tag (English, Japanese, any other): each of the ~110 report fields equals the names function / metric query of the metric it is named after, evaluated on the same object; version, vector, score renderings and severities per level incl. shadowing through the embedded reports; default language = English.",
+      "Relational (the names tables themselves are C18's subject).",
+      "DESIGN.md 6/C17")
+claim("C18",
+      "For each of the 23 value-name functions, 26 titles and 6 headers: every 64-bit value (two independent ones for distinctness) and every language tag: non-empty English and Japanese names for defined values, distinct names for distinct values, Modified = base names, Unknown / Japanese equivalent out of range, English for any other tag.",
+      "language.Tag is an abstract sort with distinct constants for the x/text globals.",
+      "DESIGN.md 6/C18")
+claim("C19",
+      "ExportWithString / ExportWith of the three report types with an arbitrary template text, an abstract reader (any content, failing or not, any partial read) and nil reports: output is exactly execOut(text, report) iff parse and execute succeed, otherwise (nil, error) with exactly the invalid-template (resp. null-pointer) sentinel; nothing of a partial execution or partial read is returned.",
+      "Relative to text/template, which is an uninterpreted function of (template text, data identity); whether text/template itself can panic is outside.",
+      "DESIGN.md 6/C19")
+claim("C20",
+      "For each of the 22 v3 and 14 v2 metric types: every string (SMT string theory) parses to the table value or unknown, every 64-bit integer prints as its code or empty text, parse/print are inverse on codes, the validity predicate separates unknown from defined values, weights are bit-equal to the nearest double of the specification's decimals (both scopes for PR/MPR, base fallback for Modified metrics), all under a symbolic permutation of the code map's iteration order; version label parsers/printers likewise.",
+      "Tables transcribed in tools/spec_tables.py.",
+      "DESIGN.md 6/C20")
